@@ -97,7 +97,8 @@ Record state := mkState {
   ev_stopped : list Z;
   ev_suspend : bool;
   files : list Z;                       (* open file numbers *)
-  stick_on : bool
+  stick_on : bool;
+  def_seg : Z                           (* DEF SEG (all_memory.segment): no command of this model touches it *)
 }.
 
 #[export] Instance eta_state : Settable _ := settable! mkState
@@ -105,7 +106,7 @@ Record state := mkState {
     sc_vars; sc_mem; sc_current; ar_dims; ar_bufs; ar_mem; ar_current; ar_base; ar_base_by_dim;
     ss_strs; ss_current; foreign; deftype; functions;
     gosub_stack; for_stack; while_stack; on_error; err_handle; err_resume; err_num; err_pos;
-    stop_pos; data_pos; run_mode; tron; seed; ev_enabled; ev_gosub; ev_stopped; ev_suspend; files; stick_on >.
+    stop_pos; data_pos; run_mode; tron; seed; ev_enabled; ev_gosub; ev_stopped; ev_suspend; files; stick_on; def_seg >.
 
 Definition stack_start (s : state) : Z := m_total s - m_stack s - 2.
 Definition var_start (s : state) : Z := m_code_start s + m_prog_size s.
@@ -1037,7 +1038,7 @@ Definition init_state (total stack code_start prog_size : Z) : state :=
           [] [] 0 [] [] [] 0 None false
           [] (total - stack - 2) [] (repeat 33 26) []
           [] [] [] None false false 0 0 None 0 false false 5228370
-          [] [] [] false [] false.
+          [] [] [] false [] false 5037.
 
 (* ------------------------------------------------------------------------------------------------ *)
 (* observation: canonical encoding for the correspondence harness *)
@@ -1086,7 +1087,7 @@ Definition enc_state (names : list bytes) (s : state) : list Z :=
       enc_opt (on_error s); enc_bool (err_handle s); enc_bool (err_resume s); err_num s; err_pos s;
       enc_opt (stop_pos s); data_pos s; enc_bool (run_mode s); enc_bool (tron s); seed s;
       zlen (ev_enabled s); zlen (ev_gosub s); zlen (ev_stopped s); enc_bool (ev_suspend s);
-      enc_bool (stick_on s)]
+      enc_bool (stick_on s); def_seg s]
   ++ enc_bytes (files s)
   ++ List.concat (map (enc_scalar s) names)
   ++ List.concat (map (enc_array s) names).
@@ -1129,3 +1130,11 @@ Definition array_value (s : state) (n : bytes) : option (list Z * res (list byte
 (* invariant of Arrays.allocate: no dimension below the OPTION BASE *)
 Definition dims_ok (s : state) : Prop :=
   forall n d b, In (n, d) (ar_dims s) -> ar_base s = Some b -> Forall (fun x => b <= x) d.
+
+(* the invariant of the variable dictionaries: Python dicts have distinct keys; Arrays.allocate admits no
+   negative dimension and none below the OPTION BASE.  It holds in init_state and is kept by Scalars.set,
+   Arrays.allocate (the bottom of LET and DIM) and by the four commands (props/C23.v, theorems C23_wf_...) *)
+Definition wf (s : state) : Prop :=
+  NoDup (map fst (sc_vars s)) /\ NoDup (map fst (ar_dims s))
+  /\ (forall n d, In (n, d) (ar_dims s) -> Forall (fun x => 0 <= x) d)
+  /\ dims_ok s.
